@@ -518,7 +518,7 @@ func (c *Ctx) elemHeap(st *State, elem types.Type) (string, string) {
 // refPaths lists, for a value term of type t, the facts "this reference / slice inside the value was allocated no later
 // than $B" (placeholder), descending into struct fields of repository types.
 func (c *Ctx) refPaths(term string, t types.Type, depth int) []string {
-	if depth > 3 || isDecimal(t) {
+	if depth > 3 || isDecimal(t) || isBuilder(t) {
 		return nil
 	}
 	switch u := t.Underlying().(type) {
@@ -1331,7 +1331,7 @@ func (fr *Frame) newRef(st *State, hint string) string {
 // typeInv returns range facts for a value of Go type t (unsigned / sized integers, nested in repo structs).
 func (c *Ctx) typeInv(term string, t types.Type, depth int) []string {
 	var out []string
-	if isDecimal(t) {
+	if isDecimal(t) || isBuilder(t) {
 		return nil
 	}
 	switch u := t.Underlying().(type) {
@@ -1690,6 +1690,26 @@ func (fr *Frame) run(st0 *State) {
 			if fr.fc != nil && len(fr.fc.LoopInv[ord]) > 0 && fr.top {
 				// vacuity canary: the assumed invariants must be satisfiable at the loop head
 				fr.oblige(st, fmt.Sprintf("canary.loop%d_false(MUST-FAIL)", ord), "false", posOf(b))
+			}
+			if fr.fc != nil && fr.fc.Exhaustive[ord] && (fr.top || fr.closureLoops) {
+				// structural: control leaves the loop only from its header (decided on the control-flow graph)
+				body := naturalLoop(b, isBack)
+				verdict := "true"
+				for blk := range body {
+					if blk == b {
+						continue
+					}
+					for _, s2 := range blk.Succs {
+						if !body[s2] {
+							verdict = "false"
+						}
+					}
+					if len(blk.Succs) == 0 {
+						verdict = "false"
+					}
+				}
+				// a return inside the loop body is a block outside the natural loop reached from a non-header block: covered above
+				fr.oblige(st, fmt.Sprintf("loop%d.exhaustive", ord), verdict, posOf(b))
 			}
 			fr.namePC(st, fmt.Sprintf("loop%d", ord))
 			fr.loopHead[ord] = st.clone()
@@ -2294,6 +2314,15 @@ func (fr *Frame) step(st *State, in ssa.Instruction) bool {
 					fr.ptrCells = map[*ssa.Alloc]Addr{}
 				}
 				fr.ptrCells[dst] = av
+				if _, isParam := x.Val.(*ssa.Parameter); isParam {
+					// the spill of a pointer parameter that is also known as an address (a *strings.Builder): the cell
+					// keeps the pointer value too, so that the parameter's name still denotes it in the contract
+					if a2, ok2 := fr.addrOf(st, x.Addr); ok2 {
+						if pv, has := fr.vals[x.Val]; has {
+							fr.store(st, a2, pv, x.Pos())
+						}
+					}
+				}
 				return true
 			}
 		}
@@ -3291,6 +3320,40 @@ func (fr *Frame) applyContract(st *State, x *ssa.Call, callee *ssa.Function, fc 
 		ty := contractType(g[1])
 		binds[g[0]] = Val{c.fresh("ghost_"+g[0], c.sortOf(ty)), ty}
 	}
+	// a *strings.Builder argument that is the address of one of the caller's own locations: for the duration of the call
+	// the text lives in element 0 of a fresh one-element array (what "*sb" means in the callee's contract); it is written
+	// back to the caller's location afterwards
+	type bArg struct {
+		ad  Addr
+		ref string
+		bt  types.Type
+	}
+	var bArgs []bArg
+	for i, p := range callee.Params {
+		pt, ok := p.Type().Underlying().(*types.Pointer)
+		if !ok || !isBuilder(pt.Elem()) {
+			continue
+		}
+		ad, isAddr := fr.pendingAddrArgs[i]
+		if !isAddr {
+			continue
+		}
+		cur := fr.load0(st, ad, x.Pos())
+		r := fr.newRef(st, "bref")
+		key, arr := c.elemHeap(st, pt.Elem())
+		inner := c.fresh("binner", "(Array Int Str)")
+		fr.assume(st, fmt.Sprintf("(= (select %s 0) %s)", inner, cur.T))
+		fr.setElemHeap(st, key, pt.Elem(), arr, fmt.Sprintf("(store %s %s %s)", arr, r, inner), r)
+		binds[p.Name()] = Val{r, p.Type()}
+		bArgs = append(bArgs, bArg{ad, r, pt.Elem()})
+	}
+	fr.pendingAddrArgs = nil
+	writeBackBuilders := func() {
+		for _, b := range bArgs {
+			_, arr := c.elemHeap(st, b.bt)
+			fr.store(st, b.ad, Val{fmt.Sprintf("(%s %s (mk-slice %s 0 1) 0)", c.eltFn(b.bt), arr, b.ref), b.bt}, x.Pos())
+		}
+	}
 	pre := st.clone()
 	for k, rq := range fc.Requires {
 		phi := fr.evalClause(rq.Src, &Env{fr: fr, st: st, old: pre, binds: binds, noLocals: true})
@@ -3513,6 +3576,7 @@ func (fr *Frame) applyContract(st *State, x *ssa.Call, callee *ssa.Function, fc 
 	}
 	assumeEnsures()
 	assumeFunctional(res)
+	writeBackBuilders()
 	if len(res) > 0 {
 		setRes(res...)
 	}
@@ -3973,7 +4037,8 @@ func (c *Ctx) sortedOfFn(st *seqType) string {
 }
 
 // requireSortedUse: a slice compared "up to sorting" must be sorted before anything else reads it: the first use of the
-// variable after the loop has to be the argument of sort.Strings / sort.Slice / slices.Sort.
+// variable after the loop has to be the argument of a sort by a total order on the elements (sort.Strings, sort.Ints,
+// slices.Sort): sort.Slice / sort.SliceStable with a comparator leave ties in arrival order and do not qualify.
 func (fr *Frame) requireSortedUse(h *ssa.BasicBlock, body map[*ssa.BasicBlock]bool, a *ssa.Alloc, ord int) {
 	ok := false
 	seenB := map[*ssa.BasicBlock]bool{}
@@ -3995,12 +4060,8 @@ func (fr *Frame) requireSortedUse(h *ssa.BasicBlock, body map[*ssa.BasicBlock]bo
 							good = false
 							break
 						}
-						switch call.Call.StaticCallee().String() {
-						case "sort.Strings", "sort.Slice", "sort.SliceStable", "sort.Ints":
-						default:
-							if !strings.HasPrefix(call.Call.StaticCallee().String(), "slices.Sort") {
-								good = false
-							}
+						if !totalOrderSort(call.Call.StaticCallee().String()) {
+							good = false
 						}
 					}
 				}
@@ -4100,4 +4161,13 @@ func (fr *Frame) inlineClosure(st *State, cfn *ssa.Function, bindings []ssa.Valu
 		vals = append(vals, Val{t, nf.rets[0].vals[k].Typ})
 	}
 	return vals
+}
+
+// totalOrderSort: sorts whose result is a function of the multiset of elements.
+func totalOrderSort(callee string) bool {
+	switch callee {
+	case "sort.Strings", "sort.Ints", "sort.Float64s":
+		return true
+	}
+	return strings.HasPrefix(callee, "slices.Sort[")
 }
